@@ -825,6 +825,35 @@ def k1(observations, tag):
     return len(obs), [(n, code) for r in res for n, code in r]
 
 
+def k5(cases, tag):
+    """cases: (observation, sdecl list term).  Source.tree_of / item_of (the reference of the
+    C12 theorems) against the model parse of the text and the real Ast"""
+    cases = list(cases)
+    shards = shard(list(enumerate(cases)), 16)
+
+    def one(n, o, ds):
+        a = o["ast"]
+        if a["outcome"] == "ok":
+            ra = "(RAOk %s)" % ct.ast(a)
+        elif a["outcome"] == "err":
+            ra = "RAErr"
+        else:
+            ra = "(RAPanic %s)" % ct.cstr(a["site"])
+        return "(%d%%N, %s, %s, %s)" % (n, coq_text(o["text"]), ds, ra)
+
+    def run(sh_i):
+        si, items = sh_i
+        body = ["From XdrModel Require Import Check Walk Grammar Source.", "Open Scope string_scope.",
+                "Definition cases : list (N * string * list sdecl * real_ast) := ["]
+        body.append(";\n".join(one(n, o, ds) for n, (o, ds) in items))
+        body.append("].")
+        body.append("Eval vm_compute in (k5_run cases).")
+        return parse_pairs(coq_eval("k5_%s_%d" % (tag, si), "\n".join(body)))
+
+    res = par(run, list(enumerate(shards)))
+    return len(cases), [(n, code) for r in res for n, code in r]
+
+
 def k1_show(text, tag="show"):
     body = ["From XdrModel Require Import Check Walk Grammar.", "Open Scope string_scope.",
             "Eval vm_compute in (parse xdr_grammar (parse_fuel %s) %s)." % (coq_text(text), coq_text(text)),
